@@ -138,7 +138,7 @@ def one(rep, rng, j):
 def run_shard(rep):
     from vlab.dagcommon import scenario_rng
     cfg = META['tiers'][rep.tier]
-    rep.require('tokens_checked', 2000)
+    rep.require('tokens_checked', 1000)
     rep.require('single_task_runs', 30)
     for j in range(rep.shard, cfg['n'], rep.nshards):
         if rep.expired():
